@@ -97,3 +97,27 @@ CLAIMED['C15'] = dict(
     note=('Trusted: the stdlib codec registry / codecs.lookup canonicalisation on this platform. Behaviour of exotic codecs '
           'on arbitrary text and the write/read equality that follows are not decided.'),
     technique='value-fact dataflow (canonical-codec typestate) + table coverage against platform facts + def-use routing check')
+
+CLAIMED['C14'] = dict(
+    category='other',
+    text=('Abstract execution of the hunk parser over every list shape the loop bound distinguishes (empty, 1..2 (thorough: 3) '
+          'abstract lines x every line class x ignore_garbage): definite assignment of every local; the escape set is '
+          '{MalformedHunkError} (explicit raises exact, sink table for int()/group()/indexing); every MalformedHunkError names '
+          'the current line and number; the marker branch is counter-free; None-sentinels that may hold index 0 are never '
+          'tested by truthiness; the processed-line count equals the number of lines examined.'),
+    note=('Hunk geometry (start lines, counts, context lines) is arithmetic over line contents and is NOT decided. Loops are '
+          'explored up to the stated iteration bound; the rules are per-iteration (no inter-iteration invariant beyond the '
+          'modelled locals is assumed).'),
+    technique='path-sensitive abstract interpretation: definite-assignment + exception-escape (sink table) + value-kind lint at truth tests')
+
+CLAIMED['C17'] = dict(
+    category='other',
+    text=('Sufficient conditions + written induction. On every abstract path of the read-ahead helper: in the found branch '
+          'the kept slice is chunk[:i+1] for the tested find() result and seek offset + len(chunk) - kept == 0 as linear '
+          'forms with whence=SEEK_CUR; in the not-found branch the whole block is appended and nothing is given back; EOF is '
+          'signalled only by an empty read; every call site passes a one-byte constant delimiter; the block size is used '
+          'only as the size of read(); two stream consumers only and no reader attribute holding read-ahead bytes. (A '
+          'readline-style helper is accepted when its non-EOF result is known to end with the delimiter.)'),
+    note=('The induction over iterations (bytes returned = stream from entry position through the first delimiter, position '
+          'just past it, for any block size) is argued in DESIGN.md, not machine-checked. Stream semantics are trusted.'),
+    technique='linear-form (affine) dataflow over abstract paths + call-site constant check + who-may-consume query')
